@@ -1,4 +1,5 @@
 """C10 — EIP-191 personal-message digest: EthereumMessage::signing_message and `hash message` against Model/Message.v."""
+import json
 import os
 import tempfile
 
@@ -26,6 +27,13 @@ def run(ctx):
     msgs = [bytes([i]) for i in range(256)]
     msgs += [b"\x19Ethereum Signed Message:\n" + x for x in (b"0", b"12hello world!", b"5hello", b"", b"1")] + \
             [b"0x" + b"ab" * 32, b"ab" * 32, b"0x", b"0xdeadbeef", b"0x" + b"11" * 20]
+    # valid UTF-8 text that is NOT in a Unicode normal form (decomposed accents, conjoining jamo, singletons such as OHM SIGN /
+    # ANGSTROM SIGN / compatibility ideographs, ligatures, full-width forms, wrongly ordered combining marks) and text that is:
+    # a message is a byte string, it is hashed as given — never re-normalised, re-encoded or otherwise "cleaned"
+    UNNORMAL = ["e\u0301", "caf\u00e9 vs cafe\u0301", "\u1112\u1161\u11ab", "\ud55c", "\u2126", "\u212b", "\uf900", "\ufb01", "\uff21\uff22", "q\u0323\u0307", "q\u0307\u0323",
+                "\u00c5\u212b A\u030a", "\u1e9b\u0323", "\u0344", "\u00a0x\u00a0", "\u2000\u3000", "I\u0307", "\u01c4", "\u00bd", "\u2460", "\u3392", "a\u0300\u0301\u0302" * 3,
+                "\U0001d400", "\U0002f800", "\u0958", "\u0f73", "\ufeff\u200b\u200d", "\r\n\t", "A\u0308ffin", "\u1100\u1161", "\uac00\u11a8"]
+    msgs += [u.encode("utf8") for u in UNNORMAL]
     fills = []  # (byte, n)
     for n in range(0, 1101):
         k = n % 3
@@ -85,7 +93,7 @@ def run(ctx):
     lookalikes = [PFX + b"0", PFX + b"12hello world!", PFX + b"5hello", PFX + b"12hello", PFX, PFX + b"1", PFX + str(len(PFX) + 3).encode() + PFX + b"1x",
                   b"0x" + b"ab" * 32, b"ab" * 32, b"0x", b"0xdeadbeef", b"0xDEADBEEF", b"0x" + b"11" * 20, b"0xdeadbeef\n", b"deadbeef", b"0X12", b"0x0",
                   b"\x19\x00", b"\x19\x01", b"\x19\x45thereum", b"{\"types\":{}}", b"m/44'/60'/0'/0/0"]
-    sample = lookalikes + [b"", b"hello world!", bytes(range(256)), rbytes(rng, 999), rbytes(rng, 1000), b"\xff\xfe\x00", rbytes(rng, 100000),
+    sample = [u.encode("utf8") for u in UNNORMAL] + lookalikes + [b"", b"hello world!", bytes(range(256)), rbytes(rng, 999), rbytes(rng, 1000), b"\xff\xfe\x00", rbytes(rng, 100000),
               b"\xef\xbb\xbf", b"\xef\xbb\xbfhello", b"\xef\xbb\xbf" + rbytes(rng, 40), b"\xfe\xffab", b"\xff\xfea\x00", b"0x1234", b"\n", b"hello\n", b"\r\n",
               b" x ", b"\x00", b"-", b"\x1a", b"\x04tail"]
     runs = []
@@ -104,7 +112,13 @@ def run(ctx):
     # `sign message` signs exactly that digest (file and stdin; non-UTF-8 content in particular)
     phrase = "test test test test test test test test test test test junk"
     key = pyref.bip32_derive(pyref.bip39_seed(phrase, ""), [0x8000002C, 0x8000003C, 0x80000000, 0, 0])
-    smsgs = lookalikes + [b"\xef\xbb\xbfBOM first", b"trailing newline\n", b"", b"hello world!", b"\xff", b"\x80abc", b"\xc3", b"\xed\xa0\x80", bytes(range(256)), rbytes(rng, 32), rbytes(rng, 1000), "é€𝔘".encode(), b"\x00\x00"]
+    # messages whose content happens to be a complete typed-data document, a transaction, some other JSON, a phrase, a key
+    jsonish = [json.dumps({"types": {"EIP712Domain": [{"name": "name", "type": "string"}], "M": [{"name": "v", "type": "uint8"}]}, "primaryType": "M", "domain": {"name": "x"},
+                           "message": {"v": 1}}).encode(),
+               b'{"chainId":1,"nonce":0,"gasPrice":1,"gas":21000,"to":"0x' + b"11" * 20 + b'","value":0,"data":"0x"}',
+               b'{"nonce":0,"gasPrice":1,"gas":21000,"value":0,"data":"0x"}', b'{"chainId":1,"nonce":0,"maxFeePerGas":1,"maxPriorityFeePerGas":1,"gas":1,"value":0,"data":"0x","accessList":[]}',
+               b"{}", b"[]", b"null", b'"text"', b"test test test test test test test test test test test junk", b"0x" + b"00" * 31 + b"01"]
+    smsgs = jsonish + [u.encode("utf8") for u in UNNORMAL] + lookalikes + [b"\xef\xbb\xbfBOM first", b"trailing newline\n", b"", b"hello world!", b"\xff", b"\x80abc", b"\xc3", b"\xed\xa0\x80", bytes(range(256)), rbytes(rng, 32), rbytes(rng, 1000), "é€𝔘".encode(), b"\x00\x00"]
     runs = []
     for i, m in enumerate(smsgs):
         p = os.path.join(tmp, "s%d" % i)
